@@ -756,7 +756,8 @@ def main(chk: lib.Check) -> int:
     recs += coll_out
     recs += lib.pmap(obs_cline, cfams, chunksize=1)
     # other interpreter processes
-    pidx = list(range(len(ulist))) if thorough else sorted(set(range(0, len(ulist), max(1, len(ulist) // 400))) | set(range(len(ulist) - len(extra), len(ulist))))
+    stride = max(1, len(ulist) // (12000 if thorough else 400))
+    pidx = sorted(set(range(0, len(ulist), stride)) | set(range(len(ulist) - len(extra), len(ulist))))
     cidx = list(range(len(cspecs))) if thorough else list(range(0, len(cspecs), 3))
     pds = [ulist[i][0] for i in pidx] + [cspecs[i] for i in cidx]
     pds_main = [unit_out[i][0] for i in pidx] + [coll_out[i] for i in cidx]  # the cfg / coll records of this process
